@@ -131,6 +131,17 @@ def rule_beyond_value(ctx):
             idx_ok = _lin_terms(a) == {J: 1, None: -1}
             b = _sc(b)
             st, why = UNDECIDED, 'unrecognised value ' + fmt_term(b)[:80]
+            segsz = [k for k in _lin_terms(a) if k is not None and k[0] == 'call' and str(k[1]).endswith('::size') and _sc(k[3]) == ('field', 'segments', ('this',))]
+            if segsz:
+                # the rank of the last coded key is not at a fixed distance from segments.size(): build() leaves one or two
+                # sentinel-keyed segments uncoded (two when the last key is the largest non-reserved value)
+                obs.append(Ob('EF-LAST', f, r, req, f"the rank `{fmt_term(a)[:50]}` is computed from segments.size(); the number of trailing segments that are not coded is one or two, "
+                              f"so this selects a terminator segment when the last data key is numeric max - 1", VIOLATED, arm='beyond'))
+                continue
+            if _lin(b) and _lin(b)[0] == 'SIZE' and _lin(b)[1] == -1:
+                # ef.size() - 1: the universe of the code is the last coded key + 1 (sd_vector built from the sorted keys), the same
+                # fact the guard of this branch (i >= ef.size() - 1) relies on
+                st, why = (OK, 'value = ef.size() - 1, the last coded key (the universe is last + 1)') if idx_ok else (VIOLATED, f"rank `{fmt_term(a)[:50]}` is not J - 1")
             if b[0] == 'op' and b[1] in ('+', '|') and len(b) == 4:
                 lo_, hi_ = _sc(b[2]), _sc(b[3])
                 if hi_[0] == 'index':
